@@ -158,8 +158,53 @@ def job_2d(NX, NY, jx, cx, jy, cy):
     if n == 0: res.append(ob(tag + '/pairs', 'broken', detail='no feasible pair'))
     return res
 
+H1, H2, H3, HP, HM = z3.Real('h1'), z3.Real('h2'), z3.Real('h3'), z3.Real('hp'), z3.Real('hm')
+HQ1, HQ2 = z3.Real('hq1'), z3.Real('hq2')
+PREFIXES = {
+    'eval': [('interpolate', [H1])], 'deriv': [('derivative1', [H1])], 'integrate': [('integrate', [H1, H2])], 'locate': [('locate', [H1])],
+    'eval,eval': [('interpolate', [H1]), ('interpolate', [H3])], 'eval,setpref': [('interpolate', [H1]), ('set_prefactor', [HP])], 'setpref,eval': [('set_prefactor', [HP]), ('interpolate', [H1])],
+    'eval,multiply': [('interpolate', [H1]), ('multiply', [HM])], 'setpref,multiply': [('set_prefactor', [HP]), ('multiply', [HM])], 'multiply,setpref': [('multiply', [HM]), ('set_prefactor', [HP])],
+    'multiply,multiply': [('multiply', [HM]), ('multiply', [HP])], 'eval,copy': [('interpolate', [H1]), ('copy', [])], 'setpref,copy,eval': [('set_prefactor', [HP]), ('copy', []), ('interpolate', [H1])],
+    'deriv0,setpref': [('derivative0', [H1]), ('set_prefactor', [HP])], 'globalmax,multiply': [('global_max', []), ('multiply', [HM])]}
+FINALS = {'interpolate': [HQ1], 'derivative1': [HQ1], 'derivative0': [HQ1], 'integrate': [HQ1, HQ2], 'local_min': [HQ1, HQ2], 'local_max': [HQ1, HQ2], 'global_min': [], 'global_max': [], 'locate': [HQ1]}
+
+def job_history(N, pname, fname):
+    """real-constructor object, a short history, then one query: same result as a fresh object that only received the prefactor operations"""
+    mod = GMOD['m']; res = []; tag = 'history/N%d/%s/%s' % (N, pname, fname)
+    seq = PREFIXES[pname]; fin = (fname, FINALS[fname])
+    xs, ys, hist = run_history(mod, N, seq + [fin])
+    pure = [(n, a) for n, a in seq if n in ('set_prefactor', 'multiply')]
+    _, _, fresh = run_history(mod, N, pure + [fin])
+    dom = []
+    for n, a in seq + [fin]:
+        if n in ('set_prefactor', 'multiply', 'copy'): continue
+        for t in a: dom += [t >= xs[0], t <= xs[N - 1]]
+        if len(a) == 2: dom.append(a[0] <= a[1])
+    offknot = [t != x for t in fin[1] for x in xs]
+    mv = {'xs': xs, 'ys': ys, 'h1': H1, 'h2': H2, 'h3': H3, 'hp': HP, 'hm': HM, 'hq1': HQ1, 'hq2': HQ2, 'N': N, 'prefix': pname, 'final': fname}
+    n = 0
+    for pi, (sp, _, a) in enumerate(hist):
+        for qi, (sq, _, b) in enumerate(fresh):
+            so = z3.Solver(); so.set('timeout', 2000); so.add(*(sp.pc + sq.pc + dom + offknot))
+            if so.check() == z3.unsat: continue
+            n += 1
+            same_ = (a == b) if not (is_sym(a) or is_sym(b)) else (is_sym(a) and is_sym(b) and a.eq(b))
+            if same_: res.append(ob('%s/identical-term[%d,%d]' % (tag, pi, qi), 'discharged', key='C09/history/identical', detail='structurally identical result terms'))
+            else: res.append(prove('%s/equal-value[%d,%d]' % (tag, pi, qi), sp.pc + sq.pc + dom + offknot, toR(a) == toR(b), 30000, mv, key='C09/history/equal-value', detail='terms differ structurally', sample=(pi == 0 and qi == 0 and pname == 'eval,setpref' and fname == 'interpolate')))
+    if n == 0: res.append(ob(tag + '/pairs', 'broken', detail='no jointly feasible pair (%d history paths, %d fresh paths)' % (len(hist), len(fresh))))
+    return res
+
 def jobs(ctx):
     GMOD['L'] = layout(module(ctx)); b = BOUNDS[ctx.tier]; J = []
+    for pn in PREFIXES:
+        for fn in FINALS:
+            if fn in ('local_min', 'local_max') and pn not in ('setpref,multiply', 'multiply,multiply', 'locate'): continue
+            if (len(PREFIXES[pn]) <= 1 or fn in ('interpolate', 'integrate', 'global_max', 'local_min', 'derivative0')): J.append((job_history, (3, pn, fn)))
+    if not ctx.quick():
+        for pn in PREFIXES:
+            for fn in ('interpolate', 'integrate', 'local_max'): J.append((job_history, (4, pn, fn)))
+    if not GMOD['L']['complete']:
+        return J + [(layout_guard, (GMOD['L'], 'C09'))]
     for N in b['N_locate']:
         for jl in range(N - 1):
             for corr in (0, 1): J.append((job_locate, (N, jl, corr)))
@@ -175,7 +220,7 @@ def jobs(ctx):
             for cx, cy in ((1, 1), (0, 1), (1, 0), (0, 0)):
                 if (jx, cx, jy, cy) != (0, 0, 0, 0): J.append((job_2d, (nx, ny, jx, cx, jy, cy)))
     # heaviest first
-    J.sort(key=lambda j: -(j[1][0] if isinstance(j[1][0], int) else 0))
+    J.sort(key=lambda j: -(j[1][0] if isinstance(j[1][0], int) and j[0] is not job_history else 50))
     return J
 
 def validate(ctx):
@@ -202,6 +247,20 @@ def replay(ctx, o):
     so = native(ctx); m = o['model'] or {}
     if 'xs' not in m or not isinstance(m['xs'], list): return False, 'no model'
     xs = [q2f(q) for q in m['xs']]; N = len(xs)
+    if o['key'].startswith('C09/history'):
+        if any(a >= b for a, b in zip(xs, xs[1:])): return False, 'abscissae collapse in double precision'
+        ys = [q2f(q) for q in m['ys']]; val = {k: q2f(m[k]) if isinstance(m[k], list) else 0.0 for k in ('h1', 'h2', 'h3', 'hp', 'hm', 'hq1', 'hq2')}
+        sym = {'h1': H1, 'h2': H2, 'h3': H3, 'hp': HP, 'hm': HM, 'hq1': HQ1, 'hq2': HQ2}
+        def enc(seq):
+            ops = []; a = []; b = []
+            for n, args in seq:
+                ops.append(NATIVE_OP[n]); vals = [val[[k for k, t in sym.items() if t.eq(x)][0]] for x in args]
+                a.append(vals[0] if vals else 0.0); b.append(vals[1] if len(vals) > 1 else 0.0)
+            return nat.call(so, 'verif_c09_history', [('u32', N), ('dbl[]', xs), ('dbl[]', ys), ('u32', len(ops)), ('i32[]', ops), ('dbl[]', a), ('dbl[]', b)])
+        seq = PREFIXES[m['prefix']]; fin = (m['final'], FINALS[m['final']])
+        r1 = enc(seq + [fin]); r0 = enc([(n, a) for n, a in seq if n in ('set_prefactor', 'multiply')] + [fin])
+        diff = r1['status'] != r0['status'] or (r1['status'] == 'ok' and r1['ret'] != r0['ret'] and not (r1['ret'] != r1['ret'] and r0['ret'] != r0['ret']))
+        return diff, 'native history [%s] then %s: %s ; fresh object: %s  (xs=%s, args=%s)' % (m['prefix'], m['final'], r1.get('ret', r1['status']), r0.get('ret', r0['status']), xs, val)
     if any(a >= b for a, b in zip(xs, xs[1:])): return False, 'abscissae collapse in double precision'
     x = q2f(m['x']); key = o['key']
     ys = [q2f(q) for q in m['ys']] if 'ys' in m else [0.0] * N
